@@ -27,7 +27,10 @@ CHECKS = {
          'modal-trace hook H2 of the design was not built: the reader is judged on end results only', '7/C04'),
  'C05': ('exploration', 'region monitor: exact integer winding numbers of the rounded operands at guarded sample points + exact area identities, under ASan+UBSan',
          'every boolean result is evaluated at <= 260 sample points per operation with exact arithmetic: membership = op(membership of operands), no point '
-         'covered twice, |winding| <= 1; area identities among or/and/xor/not; chained operations feed results with slits back in',
+         'covered twice, |winding| <= 1; area identities among or/and/xor/not; chained operations feed results with slits back in; 4 % of the pairs come from a corpus of '
+         'touching configurations (pieces touching at a vertex or along an edge, holes poking out of their owner by rounding) under random lattice symmetries; a failed '
+         'area identity is attributed to the open finding contour-with-reversed-lobe only when the exact covered-area identities hold and the lobe is present in the raw output '
+         'of the bundled Clipper for the same operands (driver op clipper_raw)',
          'points within 2 grid units of an operand edge are not judged; operands sampled from lattice polygon families', '7/C05'),
  'C06': ('exploration', 'reference-model monitor: the spec flattened by hand (composed 2x3 matrices and repetition vectors) vs every hierarchy query, under ASan+UBSan',
          'up to 15 queries per library on cells and references (repetitions applied or attached, depth limits, tag filters on polygons, labels and paths, paths, labels), deep copy + mutate + free, '
@@ -53,7 +56,8 @@ CHECKS = {
          'empty lattices only checked for mutual consistency (ambiguity recorded in DESIGN.md); sampled repetitions', '7/C11'),
  'C12': ('exploration', 'region monitor (exact winding/area on the precision grid) + in-code progress hook H1 deciding termination in logical steps',
          'fracture pieces and slice bins are checked for vertex limit, copied attributes, exact area and exact membership (exactly one piece covers '
-         'each interior sample point); the re-slicing loop is bounded by the hook',
+         'each interior sample point); the re-slicing loop is bounded by the hook; write_gds(max_points in {0..6, 8, 17, 199, 8190}) of the polygon and of a path outline: '
+         'the boundaries read back with the independent decoder are the shape itself (limits 0..4) or a partition of it',
          'polygons simple by construction; points within 2 grid units of an original edge are not judged', '7/C12, 4/H1'),
  'C13': ('exploration', 'region monitor: exact membership + float distance to the rounded input boundary at sample points outside a guard band around d',
          'points nearer than |d|-g must be gained/lost, points farther than reach*|d|+g must not, for all three joins, both signs, both union settings, '
@@ -66,7 +70,8 @@ CHECKS = {
          'trusts the 60-line integer oracle (oracle_geom.cpp, no gdstk headers); coordinates restricted to exactly representable dyadic values', '7/C14'),
  'C07': ('exploration', 'reference-geometry monitor: element centre line rebuilt from the observed spine and per-point width/offset entries; winding-number probes of the outline against distance to that centre line; per-call bookkeeping assertions; under ASan+UBSan',
          'after every construction call: one width/offset entry per spine point per element, taper ends exactly at the requested value and runs monotonically; '
-         'outline: points within 0.6 half widths of the centre line inside, points beyond join reach + 3 tolerances of the cap-extended centre line outside, '
+         'outline: points within 0.6 half widths of the centre line inside, points beyond join reach + 3 tolerances of the cap-extended centre line outside, every outline vertex within that reach '
+         '(not for miter joins), two probes 0.85 half widths to the outer side of every real corner (turns up to 140 degrees on plain polylines), '
          'end planes for flush/round/half-width/extended ends, circular bends (arc mid point in, sharp corner out, consecutive bends sharing a short segment), duplicate removal keeps elements aligned; '
          'simple paths: the GDSII and OASIS PATH records read back from the bytes with the independent decoders (centre line within tolerance + 2 grid units of the oracle centre line, width, end style, extensions)',
          'oracle in py/c07.py; elements whose centre line folds (offset or half width eats a whole segment at a corner) or approaches itself are outside the stated domain and skipped, counted in evidence; '
@@ -77,11 +82,12 @@ CHECKS = {
          'analytic oracle in py/c15.py; smooth/turn only generated after sections that define the needed state; interpolation constraints never exactly opposite to a chord', '7/C15'),
  'C16': ('exploration', 'history + executable model: abstract cell graph updated per documented operation semantics, compared with the real graph after every step, under ASan+UBSan',
          'after each of 5-24 edit operations the type and target identity of every reference, library membership, top-level set, dependency sets and tags in use '
-         'must equal the model (tag maps of 1-20 entries, so that the table grows while it is filled); content compared between start and end',
+         'must equal the model (tag maps of 1-20 entries, so that the table grows while it is filled; references to and replacement of cells outside the library); content compared between start and end',
          'model in py/c16.py; histories sampled; graphs kept acyclic; names kept unique', '7/C16'),
  'C17': ('exploration', 'differential monitor: partial readers vs full reader vs independent decoder; byte-level comparison of re-emitted raw cells and timestamp rewrites',
          'gds_info/gds_units/gds_timestamp, filtered and rescaled loads, raw-cell copies and timestamp rewrites are compared with the full load '
-         'and with the independent decoder on files from both writers; paths loaded with a target unit keep the same physical tolerance',
+         'and with the independent decoder on files from both writers (5 % of the gdstk-written ones with layer/type numbers above 32767); summary tags also against the tags the full load finds; '
+         'paths loaded with a target unit keep the same physical tolerance',
          'trusts py/gds_codec.py; filter sets, units and cell subsets are sampled', '7/C17'),
  'C18': ('fault_enumeration', 'crash-point (prefix) enumeration in forked children under ASan+UBSan with descriptor-count and result monitors',
          'every prefix length of every generated file (complete per file for files <= 4 KiB) x every reader named by the property; '
